@@ -145,8 +145,15 @@ func Run(w *World, cfg RunCfg) (*Outcome, error) {
 		kit.Apply(ctx, cl, c)
 		batch = append(batch, c)
 	}
+	// the fake client assigns no UIDs, while Solve keys its pod cache and the queue's staleness detection by pod UID
 	originals := map[types.UID]*corev1.Pod{}
 	for _, p := range batch {
+		if p.UID == "" {
+			p.UID = types.UID("uid-" + p.Namespace + "-" + p.Name)
+		}
+		if _, dup := originals[p.UID]; dup {
+			return nil, fmt.Errorf("duplicate pod UID %q in the batch", p.UID)
+		}
 		originals[p.UID] = p.DeepCopy()
 	}
 	opts := []scheduling.Options{scheduling.DisableReservedCapacityFallback, scheduling.NumConcurrentReconciles(cfg.Workers), scheduling.MinValuesPolicy(mv)}
